@@ -25,6 +25,9 @@ def build_doc(seed):
     doc.text.addElement(text.P(text='first body paragraph'))       # built before the header paragraph further down
     docgen.fill_document(rng, doc)
     doc.meta.addElement(dc.Title(text='T & <t>'))
+    # what office suites keep there: counters and dates a "save" might feel entitled to touch
+    doc.meta.addElement(meta.EditingCycles(text='3')); doc.meta.addElement(meta.EditingDuration(text='PT1H')); doc.meta.addElement(meta.CreationDate(text='2020-01-02T03:04:05'))
+    doc.meta.addElement(dc.Date(text='2021-01-02T03:04:05')); doc.meta.addElement(meta.DocumentStatistic(pagecount='1', wordcount='2'))
     every = seed % 2 == 0                                # every other document has all of it: generators next to each other and apart
     if every or rng.random() < 0.5: doc.meta.addElement(meta.Generator(text='OtherApp/9'))
     if every or rng.random() < 0.5: doc.meta.insertBefore(meta.Generator(text='Older/1'), doc.meta.firstChild)
